@@ -96,6 +96,15 @@ def text_block_function(fn):
     return lps[0]
 
 
+def _takewhile_block(e):
+    """(predicate, stream expression) when e is [list(]itertools.takewhile(pred, stream)[)]"""
+    while isinstance(e, ast.Call) and norm(e.func) in ('list', 'tuple') and len(e.args) == 1:
+        e = e.args[0]
+    if isinstance(e, ast.Call) and norm(e.func) in ('itertools.takewhile', 'takewhile') and len(e.args) == 2:
+        return e.args[0], e.args[1]
+    return None
+
+
 class TableAnalysis:
     """path enumeration of the command loop body over (command letter, range present) with affine values"""
 
@@ -162,6 +171,10 @@ class TableAnalysis:
             raise AnalysisError('%s: name %s outside the modelled environment' % (self.f.site, e.id))
         if isinstance(e, ast.Call) and isinstance(e.func, ast.Name) and e.func.id in self.f.module.funcs and text_block_function(self.f.module.funcs[e.func.id]) is not None:
             # a helper that collects the lines of the text block from the stream (its loop is analysed by C18.R3)
+            return ('textblock', True)
+        tw = _takewhile_block(e)
+        if tw is not None:
+            # the text block collected with itertools.takewhile (how it ends is decided by C18.R3)
             return ('textblock', True)
         if isinstance(e, ast.Call) and norm(e.func) == 'int' and len(e.args) == 1:
             v = self.ev(e.args[0], env, facts)
@@ -483,6 +496,17 @@ def r3_terminator(rep, src):
             if tb is not None:
                 rep.saw_func(h)
                 cands.append((h, tb[0], tb[1], 'helper'))
+    if not cands:
+        # itertools.takewhile on the command stream stops at the "." line and at the end of the input alike, and the caller cannot
+        # tell which: an unterminated block is accepted
+        outer_iters = {norm(n_.iter) for n_ in ast.walk(f.node) if isinstance(n_, ast.For)}
+        for n_ in ast.walk(f.node):
+            tw = _takewhile_block(n_) if isinstance(n_, ast.Call) else None
+            if tw is not None and norm(tw[1]) in outer_iters:
+                rep.fail('C18.R3', f.site, 'text block must end with "."', 'the text of an a/c command is collected with takewhile() on the command stream: it ends at the "." '
+                         'line and at the end of the input alike, so a script that stops inside a text block yields a patch instead of ValueError',
+                         where='%s:%d' % (f.module.relpath, n_.lineno))
+                return
     if len(cands) != 1:
         raise AnalysisError('%s: expected one text-block loop (found %d)' % (f.site, len(cands)))
     fn, inner, lst, how = cands[0]
